@@ -32,7 +32,7 @@ META = {
 }
 
 COQ_FILES = ["C10/GenAlloc.v", "C10/Layout.v", "C10/Alloc.v", "C10/Paths.v", "C10/AllocProofs.v",
-             "C10/OverrideProofs.v", "C10/AddrTemplates.v", "C10/VAddrTemplates.v", "C10/PropsC10.v"]
+             "C10/OverrideProofs.v", "C10/AddrTemplates.v", "C10/VAddrTemplates.v", "C10/VAddrPath.v", "C10/VMapTemplates.v", "C10/RoundTrip.v", "C10/PropsC10.v"]
 IMPORTS = "From Verif Require Import Base.PyInt C10.GenAlloc C10.Layout C10.Alloc.\nOpen Scope string_scope.\nOpen Scope Z_scope.\n"
 TWO256 = 2**256
 MAXES = {"storage": 2**256, "transient": 2**256, "code": 0x6000}
@@ -324,6 +324,11 @@ def make_override_variants(rnd, mod, L0, evm):
 
     out = []
     paths = list(tmpl)
+    # export -> override round trip: the exported storage layout itself (lock key included when exported)
+    if LOCK_KEY in L0 or not need_lock:
+        ov_rt = json.loads(json.dumps(L0))
+        out.append(("roundtrip-export", ov_rt, {p_: (tmpl[p_]["slot"], sizes[p_]) for p_ in tmpl},
+                    L0[LOCK_KEY]["slot"] if LOCK_KEY in L0 else None, True))
     for _ in range(2):
         slots, lock_slot = disjoint_placement()
         ov, en = build(slots, lock_slot)
@@ -466,6 +471,11 @@ def part_override(ctx, model_ok, n, huge_ok):
             bad = oracle_layout(res[1])
             if bad:
                 ctx.violation("failing-input", "layout under override aliases: " + bad, dict(detail, reported=res[1]))
+                found = True
+                break
+            if kind == "roundtrip-export" and res[1] != lay0:
+                ctx.violation("failing-input", "layout_override(layout_export(m)) differs from layout(m) (storage / transient / code sections)",
+                              dict(detail, exported=lay0, after_round_trip=res[1]))
                 found = True
                 break
         # ---- model vs compiler
